@@ -148,17 +148,11 @@ def _serve():
                         r = c16.run_sets(rq, _mol(req))
                     rep['products'] = r[1] if r[0] == 'ok' else ['exc', r[1]]
             elif op == 'net':
-                # C17: GenerateRxnNet(seeds, rules) -> sorted canonical species
-                from pgradd.RINGParser.Reader import Read
-                from pgradd.RxnNet.RxnNetGenerator import GenerateRxnNet
-                try:
-                    rules = [Read(t) for t in req['rules']]
-                    seeds = [Chem.MolFromSmiles(s) for s in req['seeds']]
-                    with contextlib.redirect_stdout(io.StringIO()):
-                        net = GenerateRxnNet(seeds, rules, **req.get('kw', {}))
-                    rep = {'species': sorted(Chem.MolToSmiles(Chem.RemoveHs(m)) if isinstance(m, Chem.Mol) else str(m) for m in net)}
-                except Exception as e:
-                    rep = {'exc': type(e).__name__}
+                # C17: GenerateRxnNet(seeds, rule texts) in the canonical form of harness/c17.py (run_impl)
+                from . import c17
+                with contextlib.redirect_stdout(io.StringIO()):
+                    st, keys = c17.run_impl(list(req['seeds']), list(req['rules']))
+                rep = {'status': st, 'keys': keys}
             else:
                 rep = {'error': 'unknown op'}
         except Exception as e:      # the child's own failure: reported as such, never as a result of the package
